@@ -39,3 +39,32 @@ pub fn start(limit: u64, report: Option<PathBuf>) {
         })
         .expect("spawn watchdog");
 }
+
+
+/// The last panic of the process (message and location), recorded by the hook installed with
+/// `record_panics`: a panic of the code under test outside a guarded call is an outcome, not a tool error.
+static LAST_PANIC: Mutex<String> = Mutex::new(String::new());
+
+pub fn record_panics(quiet: bool) {
+    let prev = std::panic::take_hook();
+    std::panic::set_hook(Box::new(move |info| {
+        let msg = info.payload().downcast_ref::<String>().cloned()
+            .or_else(|| info.payload().downcast_ref::<&str>().map(|s| s.to_string())).unwrap_or_default();
+        let loc = info.location().map(|l| format!("{}:{}", l.file(), l.line())).unwrap_or_default();
+        let th = std::thread::current().name().unwrap_or("?").to_string();
+        if let Ok(mut g) = LAST_PANIC.lock() {
+            *g = format!("{msg} at {loc} (thread {th})");
+        }
+        if !quiet {
+            prev(info);
+        }
+    }));
+}
+
+pub fn last_panic() -> String {
+    LAST_PANIC.lock().map(|g| g.clone()).unwrap_or_default()
+}
+
+pub fn current() -> String {
+    WHAT.lock().map(|w| w.clone()).unwrap_or_default()
+}
